@@ -543,6 +543,8 @@ impl Runner {
             "walk" => self.do_walk(st),
             "bulk_probe" => self.do_bulk_probe(st),
             "leftover_block" => self.do_leftover_block(st),
+            "bulk_history" => self.do_bulk_history(st),
+            "age_files" => self.do_age_files(st),
             "legacy_tails" => self.do_legacy_tails(st),
             other => panic!("unknown step op {other}"),
         }
@@ -573,6 +575,29 @@ impl Runner {
         self.log.emit(json!({"ev": "note", "what": "legacy_tails", "n": n}));
         self.log.emit(json!({"ev": "layout"}));
         self.emit_fsck();
+    }
+
+    /// Time passes: every file and directory of the archive gets a modification time `days` days in
+    /// the past (archives live for years; nothing in the format depends on the age of its files).
+    fn do_age_files(&mut self, st: &Value) {
+        let days = st.get("days").and_then(|x| x.as_i64()).unwrap_or(400);
+        let when = filetime::FileTime::from_unix_time(now_s() as i64 - days * 86_400, 0);
+        fn walk(dir: &Path, when: filetime::FileTime, n: &mut u64) {
+            if let Ok(rd) = fs::read_dir(dir) {
+                for e in rd.flatten() {
+                    let p = e.path();
+                    if e.file_type().map(|t| t.is_dir()).unwrap_or(false) {
+                        walk(&p, when, n);
+                    }
+                    if filetime::set_file_times(&p, when, when).is_ok() {
+                        *n += 1;
+                    }
+                }
+            }
+        }
+        let mut n = 0;
+        walk(&self.arch, when, &mut n);
+        self.log.emit(json!({"ev": "note", "what": "age_files", "days": days, "n": n}));
     }
 
     /// Sentinel files and directories beside the restore destinations (C16). Symlink targets in
@@ -607,6 +632,57 @@ impl Runner {
     /// start/end timestamps of band heads and tails masked. Compared with the previous picture
     /// taken in this scenario (if any).
     fn do_archive_digest(&mut self, _st: &Value) {
+        let dir = self.arch.clone();
+        self.digest_dir(&dir);
+    }
+
+    /// One replay, inside the harness, of a history too large to log verb by verb: `nfiles` one-byte
+    /// files backed up with one entry per hunk (more than one index sub-directory), then once more,
+    /// unchanged, with the default settings; into a fresh side archive under the given runtime
+    /// flavour. Its byte picture is compared with that of the previous replay of the scenario.
+    fn do_bulk_history(&mut self, st: &Value) {
+        let nfiles = st.get("nfiles").and_then(|x| x.as_u64()).unwrap_or(10_040) as usize;
+        let flavor = st.get("rt").and_then(|x| x.as_str()).unwrap_or("ct").to_string();
+        let src = self.fresh("bulkh_src");
+        let arch = self.fresh("bulkh_arch");
+        fs::create_dir_all(&src).unwrap();
+        for i in 0..nfiles {
+            let p = src.join(format!("f{i:06}"));
+            fs::write(&p, [(i % 251) as u8 + 1]).unwrap();
+            let ft = filetime::FileTime::from_unix_time(1_600_000_000 + i as i64, 0);
+            filetime::set_file_times(&p, ft, ft).unwrap();
+        }
+        let ft = filetime::FileTime::from_unix_time(1_600_000_000, 0);
+        filetime::set_file_times(&src, ft, ft).unwrap();
+        let mon = TestMonitor::arc();
+        let mon2 = mon.clone();
+        let (arch2, src2) = (arch.clone(), src.clone());
+        EXTRA_TIMEOUT_S.store(120, Ordering::SeqCst);
+        // storage verbs are not logged (tens of thousands); one may be made slow: {"slow": [verb, path suffix, ms]}
+        let mut plan = Plan::default();
+        if let Some(a) = st.get("slow").and_then(|x| x.as_array()) {
+            if let (Some(v), Some(p), Some(ms)) = (a.first().and_then(|x| x.as_str()), a.get(1).and_then(|x| x.as_str()), a.get(2).and_then(|x| x.as_u64())) {
+                plan.stall_paths.push((v.to_string(), p.to_string(), ms));
+            }
+        }
+        fs::create_dir_all(&arch).unwrap();
+        let was_muted = self.log.set_muted(true);
+        let _ = was_muted;
+        let icpt = ActorIcpt::new("bulk", &arch, self.log.clone(), plan, None);
+        let out = run_call(&flavor, &mon, || async move {
+            let archive = Archive::create(Transport::local(&arch2).with_interceptor(icpt)).await.map_err(|e| err_name(&e))?;
+            let options = BackupOptions { max_entries_per_hunk: 1, ..BackupOptions::default() };
+            conserve::backup(&archive, &src2, &options, mon2.clone()).await.map_err(|e| err_name(&e))?;
+            conserve::backup(&archive, &src2, &BackupOptions::default(), mon2).await.map_err(|e| err_name(&e))
+        });
+        self.log.set_muted(false);
+        self.log.emit(json!({"ev": "note", "what": "bulk_history", "rt": flavor, "res": out.res, "panic": out.panic, "errors": out.mon_errors.len()}));
+        self.digest_dir(&arch);
+        tree::remove_tree(&src);
+        tree::remove_tree(&arch);
+    }
+
+    fn digest_dir(&mut self, root: &Path) {
         fn walk(dir: &Path, rel: &str, out: &mut Vec<(String, String)>) {
             let mut names: Vec<_> = fs::read_dir(dir).map(|rd| rd.flatten().collect::<Vec<_>>()).unwrap_or_default();
             names.sort_by_key(|e| e.file_name());
@@ -635,7 +711,7 @@ impl Runner {
             }
         }
         let mut cur = Vec::new();
-        walk(&self.arch, "", &mut cur);
+        walk(root, "", &mut cur);
         let (equal, diffs) = match &self.last_digest {
             None => (true, vec![]),
             Some(prev) => {
